@@ -3,6 +3,7 @@ import MpsVerif.Drv.Buffer
 import MpsVerif.Drv.Ledger
 import MpsVerif.Drv.RemoteExc
 import MpsVerif.Drv.AFifo
+import MpsVerif.Drv.Eager
 
 def main (args : List String) : IO UInt32 := do
   match args with
@@ -12,4 +13,5 @@ def main (args : List String) : IO UInt32 := do
   | ["remoteexc"] => RemoteExc.Drv.main; return 0
   | ["afifo"] => AFifo.Drv.main; return 0
   | ["afifostale"] => AFifo.Drv.mainStale; return 0
+  | ["eager"] => Eager.Drv.main; return 0
   | _ => IO.eprintln s!"usage: drv <model>   (models: fifo)"; return 2
